@@ -12,6 +12,8 @@ RULE = ('case = (client protocol, MAX_DATAPOINTS_PER_MESSAGE, queue of n uniquel
         'fed (whole and re-segmented) into the real listener protocol and the recorder is compared with what was queued '
         '(pickle: identical; line: name identical, timestamp floor, |dvalue| <= 5e-11 or 1 ulp; count and order preserved); '
         'non-trivial = queue with >=2 datapoints; distinct = (protocol, batch size, queue)')
+RULE_MORE = (" Also: 30000-50000 datapoints per message, connection quality resets followed onto the new connection, the next daemon's flow control pausing its listener mid-segment, the relay closing in the middle of its stream.")
+RULE = RULE + RULE_MORE
 EXHAUSTIVE = {'quick': False, 'thorough': False}
 EXHAUSTIVE_OVER = ''
 ASSUMPTIONS = ['protobuf client/listener pair not runnable (google.protobuf absent)',
